@@ -458,7 +458,8 @@ SPEC = PropSpec(
                  "and whether a warning is raised is compared, step by step, with the reference state machine the "
                  "property states. Thorough tier: all histories up to length 4. Plus the structural constant rule "
                  "R12.4 (modulus = 2**14). Does not decide warning texts."
-                 ' APID 0 and 2047 take part like any other; with ccsds_headers_only every raw packet is handed out whatever its flags and the combining option.'),
+                 ' APID 0 and 2047 take part like any other; with ccsds_headers_only every raw packet is handed out whatever its flags and the combining option.'
+                 ' Members of one group may differ in version, type and secondary-header flag (the group is identified by its APID alone).'),
     rule_doc=("R12.1: one obligation per (designed history, secondary-header length in {0,2}); R12.off: combining "
               "disabled; R12.4: folded modulus; R12.exh (thorough): all histories of length <= 4 over "
               "{F,C,L,U}x{+1,+2} on one APID and {F,C,L}x{2 APIDs} in sequence."),
